@@ -2,6 +2,7 @@ package main
 
 import (
 	"fmt"
+	"sort"
 	"strings"
 
 	"github.com/buildbuildio/pebbles/planner"
@@ -126,7 +127,7 @@ func stepsCoq(r *Rig, op gen.GenOp, logs []fake.LoggedRequest) []string {
 		} else {
 			hdr = "[(\"<the step's QueryString does not parse>\", \"\")]"
 		}
-		out = append(out, fmt.Sprintf("mkCase %s [%s] %s %s\n    %s\n    %s\n    %s", coqprint.SelectionSet(s.SelectionSet), strings.Join(ls, "; "), cv, fw,
+		out = append(out, fmt.Sprintf("CStep (mkCase %s [%s] %s %s\n    %s\n    %s\n    %s)", coqprint.SelectionSet(s.SelectionSet), strings.Join(ls, "; "), cv, fw,
 			coqprint.HeaderTypes(r.Merged, names), tsels, hdr))
 		for _, t := range s.Then {
 			walk(t)
@@ -136,6 +137,39 @@ func stepsCoq(r *Rig, op gen.GenOp, logs []fake.LoggedRequest) []string {
 		walk(s)
 	}
 	return out
+}
+
+// wholePlanCoq: the sanitized selection set (from one parse of the operation), the table and schema facts the planner
+// reads, and the root steps the real planner makes of a second parse.
+func wholePlanCoq(r *Rig, op gen.GenOp) (string, bool) {
+	o1 := selectedOp(r.Merged, op)
+	o2 := selectedOp(r.Merged, op)
+	if o1 == nil || o2 == nil {
+		return "", false
+	}
+	parent := "Query"
+	switch o1.Operation {
+	case ast.Mutation:
+		parent = "Mutation"
+	case ast.Subscription:
+		parent = "Subscription"
+	}
+	ctx1 := &planner.PlanningContext{Operation: o1, Request: &requests.Request{Query: op.Query, Variables: op.Variables}, Schema: r.Merged, TypeURLMap: r.TM}
+	sanitized, _ := planner.VerifSanitize(ctx1, o1.SelectionSet)
+	input := coqprint.PSels(sanitized)
+	var sp planner.SequentialPlanner
+	obs := "None"
+	plan, err := sp.Plan(&planner.PlanningContext{Operation: o2, Request: &requests.Request{Query: op.Query, Variables: op.Variables}, Schema: r.Merged, TypeURLMap: r.TM})
+	if err == nil {
+		obs = "(Some " + coqprint.PSteps(plan.RootSteps) + ")"
+	}
+	urls := append([]string{}, r.TM.GetURLs()...)
+	sort.Strings(urls)
+	us := make([]string, len(urls))
+	for i, u := range urls {
+		us[i] = coqprint.CoqStr(u)
+	}
+	return fmt.Sprintf("CPlan (mkPlan %s\n    %s\n    [%s] %s\n    %s\n    %s)", coqprint.TMap(r.TM), coqprint.PSchema(r.Merged), strings.Join(us, "; "), coqprint.CoqStr(parent), input, obs), true
 }
 
 func driveC02(seed int64, tier, out, replay string) {
@@ -237,6 +271,11 @@ func driveC02(seed int64, tier, out, replay string) {
 		for range lines {
 			obs.CaseInputs = append(obs.CaseInputs, c)
 		}
+		if pl, ok := wholePlanCoq(r, op); ok {
+			coq = append(coq, pl)
+			obs.CaseInputs = append(obs.CaseInputs, c)
+			obs.Count("whole_plans_compared_with_the_model")
+		}
 		obs.Count(fmt.Sprintf("steps_%d", len(lines)))
 		if len(op.Variables) > 0 {
 			obs.Count("with_client_variables")
@@ -257,6 +296,6 @@ func driveC02(seed int64, tier, out, replay string) {
 	obs.Evaluations = idx
 	obs.DistinctNontrivial = len(distinct)
 	obs.Rule = "generated worlds x generated valid operations (arguments with literals and variables, nested fragments, aliases); every sub-request is parsed, validated against the RECEIVING service's own schema and has its variables coerced by that service (evaluating fakes); every plan step's selection set, VariablesList and forwarded variables are compared with the model; coverage and helper registration through the single-server comparison; non-trivial = plan has at least 2 steps"
-	hx.WriteCases(out, "From Pebbles Require Import Base.Json Plan.Vars Plan.Header Corr.C02.\nFrom Coq Require Import List String. Import ListNotations.\nOpen Scope string_scope.\n", "c2case", coq, "mismatches")
+	hx.WriteCases(out, "From Pebbles Require Import Base.Json Plan.Vars Plan.Header Merge.Model Plan.Steps Corr.C02.\nFrom Coq Require Import List String. Import ListNotations.\nOpen Scope string_scope.\n", "c2", coq, "mismatches")
 	obs.Write(out)
 }
